@@ -142,6 +142,7 @@ void run_program(const Program& p) {
     reg.installPlugin(g_plugin);
     g_det->clearAllAccounting(mem_leak_period_all);
     g_det->enable();
+    g_plugin->expectedLeaks_ = 0; g_plugin->ignoreAllWarnings_ = false;      // every case starts from the plugin's initial state
     MemoryLeakWarningPlugin::turnOnDefaultNotThreadSafeNewDeleteOverloads();
     reg.runAllTests(result);                                  // no harness allocation in here
     const char* final_report = g_plugin->FinalReport(0);
